@@ -12,7 +12,9 @@ if [ "${1:-}" = "-j" ]; then J=$2; shift 2; fi
 PAT=${1:-}
 export GOFLAGS=-mod=mod GOPROXY=off GOSUMDB=off GOTOOLCHAIN=local
 S=/tmp/vself
-rm -rf $S; mkdir -p $S/out
+rm -rf $S; mkdir -p $S/out $S/base
+# one snapshot of /verif for all jobs (so that /verif may be edited while the self-test runs)
+rsync -a --exclude .git --exclude work --exclude replay --exclude bin --exclude evidence /verif/ $S/base/
 job() {
   id=$1
   dir=/verif/seeded/$id
@@ -20,7 +22,7 @@ job() {
   wt=$S/wt-$id; vc=$S/verif-$id
   git -C /repo worktree add --detach $wt HEAD -q 2>/dev/null || { echo "$id worktree-failed" > $S/out/$id; return; }
   if ! git -C $wt apply $dir/patch.diff 2>/dev/null; then echo "$id PATCH-DOES-NOT-APPLY" > $S/out/$id; git -C /repo worktree remove --force $wt; return; fi
-  mkdir -p $vc; rsync -a --exclude .git --exclude work --exclude replay --exclude bin --exclude evidence /verif/ $vc/
+  mkdir -p $vc; rsync -a $S/base/ $vc/
   res=""
   for p in $props; do
     (cd $vc && VERIF_REPO=$wt ./check $p quick > $S/out/$id.$p.log 2>&1); rc=$?
